@@ -175,10 +175,13 @@ def gen_cell(rseed: int, tier: str) -> Dict[str, Any]:
     r = g.random()
     big = [i for i in valid if len(docs[i]["text"]) > 8192]
     tiny = [d["id"] for d in docs if d["name"] in ("empty", "only-comment", "blank-lines", "comment-slashes", "comment-tmp")]
+    deep = [d["id"] for d in docs if d["name"] in ("nested-40", "recursion-150")]
     if big and r < 0.04:
         doc = g.choice(big)
     elif tiny and r < 0.08:
         doc = g.choice(tiny)   # documents without any element (an empty database on every route)
+    elif deep and r < 0.11:
+        doc = g.choice(deep)   # documents near / beyond the interpreter's recursion limit (same outcome on every route)
     elif r < 0.35:
         doc = g.choice([i for i in nonascii if i in set(valid)] or valid)
     elif r < 0.75:
